@@ -250,7 +250,13 @@ func (g *genCtx) scalar(ft FieldT) gen.Val {
 			}
 			return v
 		}
-	case gen.TTime, gen.TIPv4, gen.TIPv6:
+	case gen.TIPv6:
+		// a net.IP field may hold an IPv4 address in Go's 4-byte form; in an IPv6-typed AVP it
+		// stays that address (IPv4-mapped)
+		if ft.Go == "ip" && rapid.IntRange(0, 3).Draw(t, "ip4-form") == 0 {
+			return gen.Val{T: ft.DT, B: rapid.SliceOfN(rapid.Byte(), 4, 4).Draw(t, "ip4-bytes")}
+		}
+	case gen.TTime, gen.TIPv4:
 	default:
 		if rapid.IntRange(0, 3).Draw(t, "zero") == 0 {
 			if isStringLike(ft.DT) {
